@@ -195,14 +195,25 @@ def run_c18(tier, seed):
         if len(pages) >= 2:
             oc.nontrivial.add(stable_hash([pages, prefix, suffix]))
     # 3. the three collection constructors give the same merged result
-    for h in hist_run.run_histories([seed * 811 + k for k in range(12 if tier == 'quick' else 120)], max_steps=6):
+    coll_lists = [(f'history seed={h["seed"]}', h['docs'])
+                  for h in hist_run.run_histories([seed * 811 + k for k in range(12 if tier == 'quick' else 120)], max_steps=6)]
+    # messages tied on the message ID are applied in the order they were supplied, whatever the constructor
+    t_ro = TJ.to_text(B.ro_doc([B.story('A', [B.item('a1')])], message_id='3'))
+    t1, t2 = (TJ.to_text(B.story_append([B.story(n)], message_id='5')) for n in ('T1', 'T2'))
+    t_ins = TJ.to_text(B.story_insert('A', [B.story('T3')], message_id='5'))
+    t_del = TJ.to_text(B.story_delete(['T3'], message_id='5'))
+    for k, lst in enumerate([[t_ro, t1, t2], [t_ro, t2, t1], [t2, t_ro, t1], [t1, t2, t_ro], [t_ro, t_ins, t_del], [t_ro, t_del, t_ins],
+                             [t_del, t2, t_ins, t_ro, t1]]):
+        coll_lists.append((f'tied message IDs #{k}', lst))
+    for label, docs in coll_lists:
+        h = {'docs': docs, 'seed': label}
         outs = {via: coll_family.impl_collection(h['docs'], True, False, via=via) for via in ('strings', 'files', 's3')}
         oc.evaluations += 1
         oc.in_domain += 1
         oc.count('collections')
         key = lambda o: (o['err'], o['reader_ids'], o['text'], o['run']['warns'] if o['run'] else None)
         if len({json.dumps(key(o)) for o in outs.values()}) != 1:
-            oc.failing.append({'kind': 'collection-sources', 'docs': h['docs'], 'label': f'history seed={h["seed"]}',
+            oc.failing.append({'kind': 'collection-sources', 'docs': h['docs'], 'label': label,
                                'spec': 'collections built from files, strings and S3 keys over the same contents merge to the same result',
                                'impl': {k: {'err': o['err'], 'reader_ids': o['reader_ids']} for k, o in outs.items()}})
     oc.rule = ('documents of every class and random rich documents through file/str/bytes/fake S3 (incl. ISO-8859-1 and UTF-16 '
